@@ -137,10 +137,12 @@ def one(ctx, config, rng, alt, value, minv, exp, min_bits, blind, msglen, extral
             ctx.ev("rangeproof_rewind", "option_subset", True, proof, nonce, fl)
             ctx.check(rw2.ret == 1 and (not (fl & 2) or rw2.i(2) == value) and (not (fl & 1) or rw2.b(1) == b32(blind)), "rangeproof_rewind:option_subset_differs", "flags=%d %r" % (fl, rw2), config)
     n2 = bytearray(nonce); n2[rng.randrange(32)] ^= 1 << rng.randrange(8)
-    rw3 = ctx.call("rangeproof_rewind", 7, 4096, bytes(n2), Co, proof, extra or None, Ho, config=config)
-    if rw3 is not None:
-        ctx.ev("rangeproof_rewind", "other_nonce", True, proof, bytes(n2))
-        ctx.check(rw3.ret == 0, "rangeproof_rewind:other_nonce_succeeded", det, config)
+    # "any other nonce fails" whatever subset of the optional outputs the caller asks for (all of them, some, none)
+    for fl3 in (7, rng.choice((0, 0, 1, 2, 3, 4, 5, 6))):
+        rw3 = ctx.call("rangeproof_rewind", fl3, 4096, bytes(n2), Co, proof, extra or None, Ho, config=config)
+        if rw3 is not None:
+            ctx.ev("rangeproof_rewind", "other_nonce:outputs%d" % fl3, True, proof, bytes(n2), fl3)
+            ctx.check(rw3.ret == 0, "rangeproof_rewind:other_nonce_succeeded", det + " output flags=%d" % fl3, config)
     # determinism: same inputs in another context (randomized, replaced SHA-256 compression) give the same bytes
     r2 = ctx.call("rangeproof_sign", buflen, minv, Co, b32(blind), nonce, exp, min_bits, value, msg or None, extra or None, Ho, config=config, c=alt)
     if r2 is not None:
